@@ -709,9 +709,10 @@ impl Update {
         } else {
             Vec::new()
         };
-        // Update the rows.
-        for value_refs in rows.iter_mut() {
-            let should_update = match self.condition {
+        // Determine which rows to update.
+        let mut should_update = Vec::<bool>::with_capacity(rows.len());
+        for value_refs in rows.iter() {
+            should_update.push(match self.condition {
                 Some(ref expr) => {
                     let values: Vec<Value> = value_refs
                         .iter()
@@ -721,8 +722,50 @@ impl Update {
                     expr.eval(&row).to_bool()
                 }
                 None => true,
-            };
-            if should_update {
+            });
+        }
+        // If primary key columns are being updated, make sure that the
+        // updated rows won't conflict with each other or with other rows.
+        let key_indices = table.primary_key_indices();
+        let updates_keys = self.updates.iter().any(|(column_name, _)| {
+            table.get_column(column_name).unwrap().is_primary_key()
+        });
+        if updates_keys {
+            let mut keys_set = HashSet::<Vec<Value>>::new();
+            for (value_refs, &updating) in
+                rows.iter().zip(should_update.iter())
+            {
+                let mut values: Vec<Value> = value_refs
+                    .iter()
+                    .map(|value_ref| value_ref.to_value(string_pool))
+                    .collect();
+                if updating {
+                    for (column_name, value) in self.updates.iter() {
+                        let index =
+                            table.index_for_column_name(column_name).unwrap();
+                        values[index] = value.clone();
+                    }
+                }
+                let keys: Vec<Value> = key_indices
+                    .iter()
+                    .map(|&index| values[index].clone())
+                    .collect();
+                if keys_set.contains(&keys) {
+                    already_exists!(
+                        "Cannot update multiple rows of table {:?} to have \
+                         key {:?}",
+                        self.table_name,
+                        keys
+                    );
+                }
+                keys_set.insert(keys);
+            }
+        }
+        // Update the rows.
+        for (value_refs, &updating) in
+            rows.iter_mut().zip(should_update.iter())
+        {
+            if updating {
                 for (column_name, value) in self.updates.iter() {
                     let index =
                         table.index_for_column_name(column_name).unwrap();
@@ -731,6 +774,15 @@ impl Update {
                     *value_ref = ValueRef::create(value.clone(), string_pool);
                 }
             }
+        }
+        // Keep the rows sorted by primary key.
+        if updates_keys {
+            rows.sort_by_cached_key(|value_refs| -> Vec<Value> {
+                key_indices
+                    .iter()
+                    .map(|&index| value_refs[index].to_value(string_pool))
+                    .collect()
+            });
         }
         // Write the table back out to the file.
         let stream = comp.create_stream(&stream_name)?;
